@@ -151,6 +151,9 @@ func verifMkAttestation(kind int, meas, blob []byte) *tpmpb.Attestation {
 func verifC16Extract(logKind int) {
 	force := verifNondetBool("force_fetch")
 	meas := verifNondetBytes("measurement", 48)
+	// the provider's own quote reports an independent measurement: evidence taken from it belongs to
+	// another launch than the one the supplied quote names
+	measP := verifNondetBytes("provider_measurement", 48)
 	blobQ := []byte{0xB1, 0x0B} // endorsement carried by the supplied quote
 	blobP := []byte{0xB2, 0x0B} // endorsement carried by the provider's quote
 	blobL := []byte{0xB3, 0x0B} // endorsement in the event log (raw locator / UEFI variable)
@@ -203,15 +206,26 @@ func verifC16Extract(logKind int) {
 	default:
 		opts.Quote = nil
 	}
-	verifQuotes[2] = verifMkAttestation(pk, meas, blobP)
+	verifQuotes[2] = verifMkAttestation(pk, measP, blobP)
 
 	out, err := Endorsement(opts)
 	verifObserve("ok", err == nil)
 
 	sevName := verify.GCETcbURL(extractsev.GCETcbObjectName(sev.GCEUefiFamilyID, meas))
 	tdxName := verify.GCETcbURL(extracttdx.GCETcbObjectName(meas))
+	sevNameP := verify.GCETcbURL(extractsev.GCETcbObjectName(sev.GCEUefiFamilyID, measP))
+	tdxNameP := verify.GCETcbURL(extracttdx.GCETcbObjectName(measP))
+	// the supplied quote names the launch when it parses and carries a full-length measurement
+	quoteNames := qk == 0 || qk == 1 || qk == 4
 	for _, u := range getter.urls {
-		verifAssert(u == sevName || u == tdxName, "a network fetch is only issued for a URL derived from a full-length measurement")
+		verifAssert(u == sevName || u == tdxName || u == sevNameP || u == tdxNameP, "a network fetch is only issued for a URL derived from a full-length measurement")
+		if quoteNames {
+			verifReach("named-fetch")
+			verifAssert(u == sevName || u == tdxName, "the URL fetched is derived from the measurement of the supplied attestation, not from another quote's")
+		}
+	}
+	if quoteNames && err == nil {
+		verifAssert(!verifEqBytes(out, blobP), "evidence of another launch (the provider's quote) is not returned for a supplied attestation that names its measurement")
 	}
 	if !force {
 		logHit := logKind >= 0 && !verifEvLogFails && (logKind == 0 || ((logKind == 1 || logKind == 3) && !reader.fail) || (logKind == 2 && opts.Getter != nil && !getter.fail))
